@@ -178,6 +178,13 @@ def r3_history(ctx):
                 continue
             normal = [p for p in fa.paths if p.normal]
             sets = [[e for e in p.events if e.kind == "setattr" and e.data[0] == Q.SELF] for p in fa.paths]
+            from ..paths import known_functions
+            inv = known_functions()
+            if inv and f.qual not in inv and (mn.startswith("_") or mn == "filter"):
+                # a private method added after the rules were written is part of whichever method calls it (engine A runs its body in
+                # place there); an overriding filter() is, by the BaseGridder contract, a fit followed by the residuals
+                ctx.add("R3", f.qual + "|state-discipline", "DISCHARGED", "new helper / filter override: judged at its call sites (looked through)", fn=f.qual, nontrivial=False)
+                continue
             if mn not in ("__init__", "fit"):
                 allw = sorted({e.data[1] for s in sets for e in s})
                 if allw:
